@@ -18,11 +18,20 @@ RULE = ("base = one generated cdef (3..14 declarations of vlib.gen_cdef: typedef
         "types, nested aggregates with bitfields, enums, #define/static const constants, functions, "
         "globals, a vararg function; half of them plus 1..6 API-mode lines: '#define X ...', partial "
         "structs/enums, 'int...'/'float...'/'...' typedefs, '[...]' arrays, extern \"Python\" / "
-        "\"Python+C\" single and grouped, __stdcall/WINAPI/__cdecl); decoration = 0..32 everyday "
+        "\"Python+C\" single and grouped, __stdcall/WINAPI/__cdecl); about a third each also get: "
+        "'#define X -N' lines ('-' and the number are two tokens), typedefs that define a common type "
+        "name (uint8_t, size_t, ..) as first lines, several declarators in one typedef / extern / "
+        "function declaration, a '#define' line inside a struct/union/enum body; the text reaches the "
+        "parser as one cdef(), as two cdef() calls on one FFI cut at a declaration boundary, with "
+        "packed=True, or as cdef(base); cdef(text, override=True) (base and decorated text the same "
+        "way); decoration = 0..32 everyday "
         "insertions at random token boundaries (runs of space/tab/newline, /* */ comments single and "
         "multi-line holding //, *, quotes, '...', '#define' lines, cdef keywords, // comments, "
         "'# N \"file\"' / '#line N' lines on their own lines with hostile file names, optional space "
-        "removed, backslash-newline and comments inside #define lines, missing final newline) and in "
+        "removed, backslash-newline and comments inside #define lines, a line directive in front of a "
+        "#define line, missing final newline, text ending right after a // comment / block comment / "
+        "line directive / token with no new-line at all; 6%: 10..40 more line directives as in "
+        "'gcc -E' output) and in "
         "30% of decorations one 'exotic' insertion (form feed, vertical tab, CR, CRLF, comment with "
         "a line that looks like a line directive, file name holding cdef words, directive next to "
         "'...'/string/__stdcall tokens, multi-line comment or continuation in the head of a #define "
@@ -38,10 +47,16 @@ ASSUMPTIONS = [
     "other white space in a directive) and a #define stays the first token of its line",
     "form feed, vertical tab and CR / CRLF count as white space between tokens (C11 5.1.1.2, 6.4p3; "
     "CRLF is the text-file line end of Windows headers)",
-    "API-mode ('...') bases are compared through the declarations and emit_c_code() only"]
+    "API-mode ('...') bases are compared through the declarations and emit_c_code() only",
+    "'-N' in '#define X -N' is the two C tokens '-' and 'N': spaces, comments and backslash-newline "
+    "may stand between them, and no space is needed between the macro name and the '-'",
+    "a text does not end with a backslash; when a way of calling cdef() (packed=True, redeclaration "
+    "with override=True) is refused for the undecorated base, that base is checked through a plain "
+    "cdef() instead (counter mode_fallback:*)"]
 
 PRIM_WORDS = ('int', 'long', 'short', 'signed', 'unsigned', 'char', 'double', 'float')
 DEFINE_GAPS = ['start', 'hash-define', 'define-name', 'name-value', 'end']
+DEFINE_GAPS_NEG = ['start', 'hash-define', 'define-name', 'name-value', 'minus-number', 'end']
 
 
 # ---------------------------------------------------------------------------
@@ -82,7 +97,68 @@ def make_base(seed):
                   'typedef int (WINAPI *%swfp_t)(int, int);' % p]
         for e in rnd.sample(extras, rnd.choice([1, 2, 3, 6])):
             lines.insert(rnd.randint(0, len(lines)), e)
-    return c, lines, api
+    tags, extra_consts, glued = extend_base(random.Random('c31x/%d' % seed), p, lines)
+    return c, lines, api, tags, extra_consts, glued
+
+
+COMMON_DEFS = [('uint8_t', 'unsigned char'), ('int8_t', 'signed char'), ('uint16_t', 'unsigned short'),
+               ('int32_t', 'int'), ('uint32_t', 'unsigned int'), ('int64_t', 'long'),
+               ('uint64_t', 'unsigned long'), ('size_t', 'unsigned long'), ('ssize_t', 'long'),
+               ('intptr_t', 'long'), ('uintptr_t', 'unsigned long'), ('ptrdiff_t', 'long')]
+NEG_VALUES = ['-1', '-7', '-0x10', '-0777', '-2147483648', '-9223372036854775808', '-42L', '-0']
+
+
+def extend_base(rnd, p, lines):
+    """input classes of real headers that vlib.gen_cdef does not produce (own random stream, so
+    that the other lines of a base do not depend on them): negative #define values, typedefs that
+    define a common type name (first lines: _common_type_names must see the definition before a
+    use), several declarators in one declaration, a #define line inside an aggregate / enum body.
+    Returns (tags, [(constant name, value)], set of line numbers that continue a declaration)."""
+    P = p.upper()
+    tags, consts = [], []
+    if rnd.random() < 0.35:
+        tags.append('negative-define')
+        for n in range(rnd.choice([1, 1, 2])):
+            v = rnd.choice(NEG_VALUES)
+            consts.append(('%sNEG%d' % (P, n), -int(v[1:].rstrip('L'), 0 if 'x' in v else
+                                                    (8 if v[1:].startswith('0') and v != '-0' else 10))))
+            lines.insert(rnd.randint(0, len(lines)), '#define %sNEG%d %s' % (P, n, v))
+    if rnd.random() < 0.3:
+        tags.append('multi-declarator')
+        for e in rnd.sample(['typedef int %sma_t, *%smb_t, %smc_t[3];' % (p, p, p),
+                             'typedef size_t %smd_t, (*%smf_t)(size_t, int);' % (p, p),
+                             'extern int %smg1, *%smg2;' % (p, p),
+                             'extern uint8_t %smg3[4], %smg4;' % (p, p),
+                             'int %smh1(void), %smh2(int, uint16_t);' % (p, p)], rnd.choice([1, 2])):
+            lines.insert(rnd.randint(0, len(lines)), e)
+    if rnd.random() < 0.3:
+        tags.append('common-type-typedef')
+        for name, real in rnd.sample(COMMON_DEFS, rnd.choice([1, 2, 3])):
+            lines.insert(0, rnd.choice(['typedef %s %s;', 'typedef %s %s, *%sp_%s;' % ('%s', '%s', p, name)])
+                         % (real, name))
+    glued = set()
+    if rnd.random() < 0.3:
+        cand = []
+        for L, line in enumerate(lines):
+            if line.startswith('#') or '{' not in line or 'extern "' in line:
+                continue
+            ms = [m for m in GC._TOKEN.finditer(line) if m.group(1).strip()]
+            toks = [m.group(1) for m in ms]
+            brace = paren = 0
+            for i, t in enumerate(toks[:-1]):
+                brace += (t == '{') - (t == '}')
+                paren += (t in '([') - (t in ')]') if len(t) == 1 else 0
+                if t in (';', ',') and brace >= 1 and paren == 0 and toks[i - 1] != '...' \
+                        and toks[i + 1] != '...':
+                    cand.append((L, ms[i].end(1)))
+        if cand:
+            tags.append('define-inside-body')
+            L, pos = rnd.choice(cand)
+            v = rnd.choice(['0x1f', '3', '-5', '077UL'])
+            consts.append(('%sBD' % P, int(v.rstrip('UL'), 0 if 'x' in v else (8 if v[0] == '0' else 10))))
+            lines[L:L + 1] = [lines[L][:pos], '#define %sBD %s' % (P, v), lines[L][pos:].lstrip()]
+            glued = set([L + 1, L + 2])
+    return tags, consts, glued
 
 
 def tokclass(toks, i):
@@ -128,11 +204,11 @@ class Layout(object):
         self.define = [t[:2] == ['#', 'define'] for t in self.toks]
         self.gaps, self.where = [], {}
         for L, toks in enumerate(self.toks):
-            assert not self.define[L] or len(toks) == 4, toks
+            assert not self.define[L] or len(toks) == 4 or (len(toks) == 5 and toks[3] == '-'), toks
             cls = [tokclass(toks, i) for i in range(len(toks))]
             for j in range(len(toks) + 1):
                 if self.define[L]:
-                    w = 'define:' + DEFINE_GAPS[j]
+                    w = 'define:' + (DEFINE_GAPS if len(toks) == 4 else DEFINE_GAPS_NEG)[j]
                 else:
                     ab = set([cls[j - 1] if j else '', cls[j] if j < len(toks) else '']) - set([''])
                     w = 'decl:next-to-' + '+'.join(sorted(ab)) if ab else 'decl'
@@ -143,12 +219,13 @@ class Layout(object):
         toks = self.toks[L]
         if j == 0 or j == len(toks):
             return False
-        if self.define[L]:
-            return j >= 2
+        if self.define[L]:             # '#define X-1' defines X as -1; '-' and '1' are two tokens
+            return j in (2, 3) and toks[j] != '-'
         a, b = toks[j - 1][-1], toks[j][0]
         return (a.isalnum() or a == '_') and (b.isalnum() or b == '_')
 
-    def render(self, ins, lines=None):
+    def render(self, ins, lines=None, split_at=None):
+        """the decorated text; with split_at=k a pair: lines before k / from k on"""
         at, split = {}, {}
         for i in ins:
             if i['kind'] == 'split-value':
@@ -156,8 +233,10 @@ class Layout(object):
                 at.setdefault((i['L'], i['j']), [])
             else:
                 at.setdefault((i['L'], i['j']), []).append(i)
-        out = []
+        out, cut = [], None
         for L, toks in enumerate(self.toks):
+            if L == split_at:
+                cut = len(out)
             if lines is not None and not any((L, j) in at for j in range(len(toks) + 1)):
                 out += [lines[L], '\n']             # untouched line: verbatim
                 continue
@@ -166,8 +245,8 @@ class Layout(object):
                 s = ''.join(i['text'] for i in ps)
                 tight = any(i['kind'] == 'no-space' for i in ps)
                 if not s.replace('\\\n', ''):          # a continuation separates nothing
-                    if self.needs_sep(L, j) or (0 < j < len(toks) and not tight and
-                                                not (self.define[L] and j == 1)):
+                    if self.needs_sep(L, j) or (0 < j < len(toks) and not tight and not (
+                            self.define[L] and (j == 1 or (j == 4 and len(toks) == 5)))):
                         s = ' ' + s
                 out.append(s)
                 if j < len(toks):
@@ -177,6 +256,16 @@ class Layout(object):
             out.append('\n')
         if any(i['kind'] == 'eof-no-newline' for i in ins):
             out.pop()
+        if any(i['kind'] == 'eof-bare' for i in ins):
+            # the text ends right after its last token / comment / directive (no new-line at
+            # all), unless that would leave a backslash as the last character
+            k = len(out)
+            while k > (cut or 0) + 1 and not out[k - 1].rstrip('\n'):
+                k -= 1
+            if not out[k - 1].rstrip('\n').endswith('\\'):
+                out[k - 1:] = [out[k - 1].rstrip('\n')]
+        if split_at is not None:
+            return ''.join(out[:cut]), ''.join(out[cut:])
         return ''.join(out)
 
 
@@ -255,6 +344,17 @@ def everyday(rnd, lay, gap):
     r = rnd.random()
     if w.startswith('define:'):
         g = w[7:]
+        if g == 'minus-number':
+            # between the '-' and the number of a negative value: two tokens in C
+            if r < 0.4:
+                return ins(lay, gap, 'continuation', '\\\n' * rnd.choice([1, 1, 2]))
+            if r < 0.7:
+                return ins(lay, gap, 'ws', hws(rnd, 1, 3))
+            return ins(lay, gap, 'block-comment', block_comment(rnd, False))
+        if g == 'name-value' and not lay.needs_sep(*gap) and r < 0.3:
+            return ins(lay, gap, 'no-space', '')               # '#define X-1'
+        if g == 'start' and rnd.random() < 0.12:
+            return ins(lay, gap, 'line-directive', directive(rnd))   # ends with a new-line
         if r < 0.35:
             return ins(lay, gap, 'ws', hws(rnd, 1, 4))
         if r < 0.5 and g in ('name-value', 'end'):
@@ -298,15 +398,14 @@ def exotic(rnd, lay):
     if k == 'continuation-inside-define-value':
         # backslash-newline is spliced before tokenization (C11 5.1.1.2 phase 2): it may split
         # the value token itself ('-\<nl>42'), without indentation on the continued line
-        cand = [L for L in range(len(lay.toks)) if lay.define[L] and len(lay.toks[L][3]) >= 2
-                and lay.toks[L][3] != '...']
+        cand = [L for L in range(len(lay.toks)) if lay.define[L] and len(lay.toks[L][-1]) >= 2
+                and lay.toks[L][-1] != '...']
         if not cand:
             return None
         L = rnd.choice(cand)
-        pos = rnd.randrange(1, len(lay.toks[L][3]))
-        if rnd.random() < 0.5 and lay.toks[L][3][0] == '-':
-            pos = 1
-        return {'L': L, 'j': 3, 'kind': 'split-value', 'where': 'define:inside-value',
+        pos = rnd.randrange(1, len(lay.toks[L][-1]))
+        return {'L': L, 'j': len(lay.toks[L]) - 1, 'kind': 'split-value',
+                'where': 'define:inside-value',
                 'text': '\\\n' * rnd.choice([1, 1, 2]), 'pos': pos, 'exotic': True}
     if k in ('ws-formfeed', 'ws-vtab', 'ws-cr', 'ws-crlf'):
         ch = {'ws-formfeed': '\f', 'ws-vtab': '\v', 'ws-cr': '\r', 'ws-crlf': '\r\n'}[k]
@@ -334,9 +433,26 @@ def gen_deco(rnd, lay):
         [g for g in lay.gaps if lay.where[g].startswith('decl:')]) if p]
     out = [everyday(rnd, lay, rnd.choice(rnd.choice(pools)))
            for _ in range(rnd.choice([0, 1, 2, 4, 8, 16, 32]))]
-    if rnd.random() < 0.05:
-        out.append({'L': len(lay.toks) - 1, 'j': len(lay.toks[-1]), 'kind': 'eof-no-newline',
+    r = rnd.random()
+    if r < 0.1:
+        # eof-bare: no new-line at all after the last token / comment / line directive
+        out.append({'L': len(lay.toks) - 1, 'j': len(lay.toks[-1]),
+                    'kind': 'eof-no-newline' if r < 0.05 else 'eof-bare',
                     'where': 'eof', 'text': '', 'exotic': False})
+        if r > 0.065:
+            last = (len(lay.toks) - 1, len(lay.toks[-1]))
+            if lay.define[-1]:
+                out.append(ins(lay, last, 'line-comment', line_comment(rnd)))
+            else:
+                out.append(rnd.choice([
+                    ins(lay, last, 'line-comment', line_comment(rnd) + '\n'),
+                    ins(lay, last, 'block-comment', block_comment(rnd, False)),
+                    ins(lay, last, 'line-directive', directive(rnd))]))
+    if rnd.random() < 0.06:
+        # the output of 'gcc -E': many line directives in one text
+        plain = [g for g in lay.gaps if lay.where[g] == 'decl']
+        for _ in range(rnd.choice([10, 11, 12, 20, 40])):
+            out.append(ins(lay, rnd.choice(plain), 'line-directive', directive(rnd)))
     if rnd.random() < 0.3:
         e = exotic(rnd, lay)
         if e:
@@ -432,9 +548,11 @@ def tfact(ffi, t):
     return d
 
 
-def inline_facts(ffi, c):
+def inline_facts(ffi, c, extra_consts=()):
     out = []
     lib = ffi.dlopen(None)              # in-line constants are attributes of any dlopen()ed lib
+    for name, value in extra_consts:
+        out.append((name, getattr(lib, name)))
     for d in c.items:
         k = d['kind']
         if k == 'typedef':
@@ -454,7 +572,33 @@ PARTS = ['declarations', 'int_constants', 'emit_c_code', 'emit_python_code', 'in
          'list_types']
 
 
-def observe(st, text, api, c):
+MODES = ['single'] * 6 + ['two-calls', 'two-calls', 'packed', 'redeclare-override']
+
+
+def apply_cdef(ffi, text, mode, base_text):
+    """the ways a cdef text reaches the parser; text is a pair for 'two-calls'"""
+    if mode == 'two-calls':            # two cdef() calls on one FFI: each text is preprocessed alone
+        ffi.cdef(text[0])
+        ffi.cdef(text[1])
+    elif mode == 'packed':
+        ffi.cdef(text, packed=True)
+    elif mode == 'redeclare-override':  # the same declarations again, spelled with trivia
+        ffi.cdef(base_text)
+        ffi.cdef(text, override=True)
+    else:
+        ffi.cdef(text)
+
+
+def merged_pre(pre):
+    if not pre:
+        return None
+    macros = {}
+    for p in pre:
+        macros.update(p[1])
+    return ('\n'.join(p[0] for p in pre), macros, all(p[2] for p in pre))
+
+
+def observe(st, text, api, c, mode='single', base_text=None, extra_consts=()):
     """everything the property speaks about, for one cdef text; {'raises': ..} if any step raised"""
     from cffi import FFI
     del st['pre'][:]
@@ -464,9 +608,9 @@ def observe(st, text, api, c):
         with warnings.catch_warnings(record=True) as wl:
             warnings.simplefilter('always')
             ffi = FFI()
-            ffi.cdef(text)
+            apply_cdef(ffi, text, mode, base_text)
         o['warnings'] = sorted(set(str(w.message)[:60] for w in wl))
-        o['pre'] = st['pre'][0] if st['pre'] else None
+        o['pre'] = merged_pre(st['pre'])
         o['declarations'] = [(k, mdesc(tp), q) for k, (tp, q) in ffi._parser._declarations.items()]
         o['int_constants'] = sorted(ffi._parser._int_constants.items())
         with contextlib.redirect_stdout(io.StringIO()):
@@ -483,10 +627,10 @@ def observe(st, text, api, c):
                 ffi.emit_python_code(f)
                 o['emit_python_code'] = f.getvalue()
         step = 'inline'
-        o['inline_facts'] = inline_facts(ffi, c)
+        o['inline_facts'] = inline_facts(ffi, c, extra_consts)
         o['list_types'] = ffi.list_types()
     except Exception as e:
-        o['pre'] = st['pre'][0] if st['pre'] else None
+        o['pre'] = merged_pre(st['pre'])
         o['raises'] = '%s in %s: %s' % (type(e).__name__, step, str(e)[:300].replace('\n', ' | '))
     return o
 
@@ -521,13 +665,40 @@ def compare(base, o):
 class Checker(object):
     def __init__(self, st, rep, seed):
         self.st, self.rep, self.seed = st, rep, seed
-        self.c, self.lines, self.api = make_base(seed)
+        self.c, self.lines, self.api, self.tags, self.extra, glued = make_base(seed)
         self.lay = Layout(self.lines)
         self.base_text = '\n'.join(self.lines) + '\n'
-        self.base = observe(st, self.base_text, self.api, self.c)
+        rnd = random.Random('c31m/%d' % seed)
+        self.mode = rnd.choice(MODES)
+        cuts = [k for k in range(1, len(self.lines)) if k not in glued]
+        self.cut = rnd.choice(cuts) if self.mode == 'two-calls' and cuts else None
+        if self.mode == 'two-calls' and self.cut is None:
+            self.mode = 'single'
+        self.base = self.observe(self.text([], verbatim=True))
+        self.mode_fallback = None
+        if 'raises' in self.base and self.mode != 'single':
+            # e.g. a redeclaration that cffi refuses even with override=True: not this property
+            self.mode_fallback, self.mode, self.cut = self.mode, 'single', None
+            self.base = self.observe(self.text([], verbatim=True))
+        for i, (name, value) in enumerate(self.extra):
+            if 'raises' not in self.base and self.base['inline_facts'][i] != (name, value):
+                self.base = {'raises': 'harness: %s is %r, expected %r' % (
+                    name, self.base['inline_facts'][i], value)}
+
+    def text(self, insl, verbatim=False):
+        """the text(s) handed to cdef(): a pair in mode 'two-calls'"""
+        lines = self.lines if (insl or verbatim) else None     # no insertion: spaced tokens
+        return self.lay.render(insl, lines, split_at=self.cut)
+
+    def flat(self, insl):
+        t = self.text(insl)
+        return t if isinstance(t, str) else t[0] + t[1]
+
+    def observe(self, text):
+        return observe(self.st, text, self.api, self.c, self.mode, self.base_text, self.extra)
 
     def run(self, insl):
-        o = observe(self.st, self.lay.render(insl, self.lines if insl else None), self.api, self.c)
+        o = self.observe(self.text(insl))
         return compare(self.base, o), o
 
     def report(self, insl, diff, o):
@@ -551,25 +722,42 @@ class Checker(object):
             if not o['pre'][2]:
                 layer += '; postcondition preprocess_leaves_no_trivia failed'
         lines = sorted(set(i['L'] for i in insl))
-        text = self.lay.render(insl, self.lines if insl else None)
+        text = self.flat(insl)
         msg = ('inserting %s changes the cdef: %s\n  layer: %s\n  base line(s): %r\n  '
-               'decorated text (all other lines unchanged): %r\n  base seed %d, %s mode' % (
+               'decorated text (all other lines unchanged): %r\n  base seed %d, %s mode, cdef: %s' % (
                    ', '.join('%r (%s at %s)' % (i['text'], i['kind'], i['where']) for i in insl),
                    why, layer, [self.lines[L] for L in lines][:3],
                    decorated_excerpt(self.base_text, text), self.seed,
-                   'API' if self.api else 'ABI+API'))
+                   'API' if self.api else 'ABI+API',
+                   {'single': 'one cdef(text)', 'packed': 'cdef(text, packed=True)',
+                    'redeclare-override': 'cdef(base text); cdef(text, override=True)',
+                    'two-calls': 'two cdef() calls, the second from line %s on' % self.cut}[self.mode]))
         self.rep.bad(mech, msg, {'seed': self.seed, 'ins': insl})
 
     def check(self, insl):
         rep = self.rep
-        text = self.lay.render(insl, self.lines if insl else None)
+        text = self.flat(insl)
+        ndir = sum(1 for i in insl if i['kind'].startswith('line-directive'))
+        if ndir >= 10:
+            rep.stat('texts_with_10_or_more_line_directives')
+        if any(i['kind'] == 'eof-bare' for i in insl):
+            tail = text[-1:] if not text.rstrip(' \t').endswith('*/') else '*/'
+            last = text.rstrip('\n').split('\n')[-1]
+            rep.stat('eof-bare:ends-with-' + ('line-directive' if _R_DIRLINE.match(last) else
+                                              'line-comment' if '//' in last and tail != '*/' else
+                                              'block-comment' if tail == '*/' else
+                                              'new-line' if tail == '\n' else 'token-or-space'))
+        rep.stat('mode:' + self.mode)
         for i in insl:
             rep.stat('kind:' + i['kind'])
             rep.stat('where:' + i['where'])
+            if i['where'].startswith('define:') and i['kind'] in ('line-directive', 'no-space'):
+                rep.stat('%s@%s' % (i['kind'], i['where']))
             if i['exotic']:
                 rep.stat('exotic:%s@%s' % (i['kind'], i['where'].split(':')[0]))
         rep.stat('insertions', len(insl))
-        rep.case(text, nontrivial=bool(insl), sample={'decorated': text[:400]})
+        rep.case('%s|%s|%s' % (self.mode, self.cut, text), nontrivial=bool(insl),
+                 sample={'decorated': text[:400], 'mode': self.mode})
         diff, o = self.run(insl)
         rep.stat('compared_api_only' if self.api else 'compared_abi_and_api')
         if o.get('warnings') != self.base.get('warnings') and 'raises' not in o:
@@ -624,6 +812,10 @@ def child_case(st, case):
                     (ck.base['raises'], ck.base_text[:600]), {'seed': seed, 'ins': []})
             continue
         rep.stat('bases')
+        for t in ck.tags:
+            rep.stat('base:' + t)
+        if ck.mode_fallback:
+            rep.stat('mode_fallback:' + ck.mode_fallback)
         if case.get('ins') is not None:
             ck.check(case['ins'])
             continue
